@@ -3,12 +3,11 @@ import BarterModel.Model.Connectivity
 /-!
 # Agreement: `Health`, `ConnectivityState::all_healthy` (engine/state/connectivity/mod.rs)
 
-Only the scalar part of the connectivity code is inside the translator's subset: `enum Health`,
-`impl Default for Health`, `struct ConnectivityState`, `ConnectivityState::all_healthy`
-(`tools/rust2lean_sm.py`, group `connectivity`). The per-exchange update arms of `ConnectivityStates`
-go through accessors that return `&mut ConnectivityState` out of an `IndexMap` and an iterator
-`.all(..)`; the translator rejects them (`IndexMap<..>` / `ExchangeId` are not translated types), so
-they remain tied by the C14 correspondence run only.
+This file covers the scalar part of the connectivity code: `enum Health`, `impl Default for Health`,
+`struct ConnectivityState`, `ConnectivityState::all_healthy` (`tools/rust2lean_sm.py`, group
+`connectivity`). The per-exchange update arms of `ConnectivityStates` (accessors returning
+`&mut ConnectivityState` out of an `IndexMap`, `values().all(..)`) are translated since round 5
+(group `connectivity_updates`, map vocabulary) and proved in `ConnectivityUpdSM.lean`.
 -/
 namespace BarterModel.KernelsAgree.Connectivity
 open BarterModel BarterModel.Conn
